@@ -74,6 +74,8 @@ pub enum RTy {
     DepsOpt,
     /// `-> &str` (elided) where the only input lifetime is the *named* one of argument l (no_deps / by-value deps only)
     FromNamedArgElided(usize),
+    /// `-> Result<&str, &'static str>`: like FromElidedArg, next to a lifetime that is written in the output only
+    ResFromElidedArgOrStatic,
 }
 
 #[derive(Clone, Debug)]
@@ -182,6 +184,7 @@ impl Sig {
             },
             RTy::FromArg(l) => format!(" -> &{} str", LT[*l]),
             RTy::FromElidedArg | RTy::FromNamedArgElided(_) => " -> &str".into(),
+            RTy::ResFromElidedArgOrStatic => " -> Result<&str, &'static str>".into(),
             RTy::Gen => " -> T".into(),
             RTy::OptFromArg(l) => format!(" -> Option<&{} str>", LT[*l]),
             RTy::DepsOpt => " -> Option<D>".into(),
@@ -395,6 +398,10 @@ impl Sig {
             RTy::FromElidedArg => {
                 let i = self.params.iter().position(is_elided_ref).unwrap_or(0);
                 format!("&{} str", elided_as(i))
+            }
+            RTy::ResFromElidedArgOrStatic => {
+                let i = self.params.iter().position(is_elided_ref).unwrap_or(0);
+                format!("Result<&{} str, &'static str>", elided_as(i))
             }
             RTy::Gen => "i64".into(),
             RTy::OptFromArg(l) => format!("Option<&{} str>", LT[*l]),
@@ -644,6 +651,7 @@ pub fn gen_sig(t: &mut Tape, excl: &Excl) -> Sig {
     if !deps_has_ref && n_elided == 1 && n_lt_inputs == 1 && !excl.no_deps_elided_return {
         rets.push(RTy::FromElidedArg);
         rets.push(RTy::FromElidedArg);
+        rets.push(RTy::ResFromElidedArgOrStatic);
     }
     // ... or the single input lifetime is written out and only the output elides it
     if !deps_has_ref && n_elided == 0 && n_lt_inputs == 1 && named_ref_args.len() == 1 && !excl.no_deps_elided_return {
@@ -808,9 +816,12 @@ pub fn gen_case(t: &mut Tape, excl: &Excl) -> Case {
     if matches!(sig.ret, RTy::FromNamedArgElided(_)) {
         classes.push("elided_output_of_the_single_named_input_lifetime");
     }
-    if matches!(sig.ret, RTy::FromDeps | RTy::FromArg(_) | RTy::FromElidedArg | RTy::OptFromArg(_) | RTy::FromNamedArgElided(_)) {
+    if matches!(sig.ret, RTy::FromDeps | RTy::FromArg(_) | RTy::FromElidedArg | RTy::OptFromArg(_) | RTy::FromNamedArgElided(_) | RTy::ResFromElidedArgOrStatic) {
         classes.push("borrowed_return");
         score += 1;
+    }
+    if sig.ret == RTy::ResFromElidedArgOrStatic {
+        classes.push("elided_and_written_lifetimes_in_the_output");
     }
     if sig.is_unsafe || sig.extern_c {
         classes.push("qualifier");
